@@ -566,6 +566,11 @@ def _pipeline(ctx, plan, value_fn, script, strict, scripted_thetas=None):
             out['fit_fault'] = fault
             train_set, test_set, ceil_set = res
             cvc = plan.get('cv_ceil', 'given_off')
+            if out.get('n_small_folds'):
+                # (a fold of two conditions has a single dissimilarity: crossval leaves it out of the evaluation, but a
+                #  correlation-type noise ceiling of it is undefined and the ceiling routine raises -- C04's ground; here the
+                #  ceilings are switched off for such fold lists)
+                cvc = 'given_off'
             r = crossval(models, src, train_set, test_set, ceil_set=None if cvc == 'none_on' else ceil_set, method=plan['method'],
                          fitter=spies, pattern_descriptor=plan['pat_desc'] if plan['gen'] not in RDM_ONLY else 'index',
                          **({'calc_noise_ceil': False} if cvc == 'given_off' else ({} if cvc == 'none_on' else {'calc_noise_ceil': True})))
